@@ -59,17 +59,35 @@ async fn main() {
                 for o in &ops[from..to] { insert(&holder.store, o, &l).await; }
             }
         }
+        // a third author C whose logs both replicas hold only as copies: different contiguous runs, inserted in a SHUFFLED order
+        // (as when operations arrive through live mode before a sync fills the gap), some with their payload deleted
+        let mut pc = Peer::new(1_000_000 + round as u64).await;
+        let idc = pc.id();
+        for l in log_ids {
+            let k = 2 + rng.next(4);
+            for i in 0..k { pc.create_operation(&Body::new(format!("c {l} {i}").as_bytes()), l).await; }
+            let ops = entries(&pc.store, &idc, &l).await;
+            written.insert((idc, l), ops.clone());
+            for holder in [&pa, &pb] {
+                let to = rng.next(ops.len() + 1);
+                let from = if to > 0 { rng.next(to) } else { 0 };
+                let mut run: Vec<&Op> = ops[from..to].iter().collect();
+                for i in (1..run.len()).rev() { let j = rng.next(i + 1); run.swap(i, j); }
+                for o in run { insert(&holder.store, o, &l).await; }
+                if to > from && rng.next(3) == 0 { let victim = &ops[from + rng.next(to - from)]; let _ = OperationStore::<Op, Hash>::delete_operation_payload(&holder.store, &victim.hash).await; }
+            }
+        }
         // a pruned prefix of an own log on one side
         if rng.next(3) == 0 { let l = log_ids[rng.next(2)]; let have = entries(&pa.store, &ida, &l).await; if have.len() > 1 { let until = have[have.len() - 1].header.seq_num; let _ = LogStore::<Op, VerifyingKey, TestLogId, u32, Hash>::prune_entries(&pa.store, &ida, &l, &until).await; } }
         // shared logs: sometimes only a subset
         let mut logs: Logs<TestLogId> = Logs::default();
         let shared: Vec<TestLogId> = if rng.next(4) == 0 { vec![0] } else { vec![0, 1] };
-        logs.insert(ida, shared.clone()); logs.insert(idb, shared.clone());
+        logs.insert(ida, shared.clone()); logs.insert(idb, shared.clone()); logs.insert(idc, shared.clone());
         // model
         let mut want: [Vec<Hash>; 2] = [vec![], vec![]];
         let mut stored: [BTreeMap<(VerifyingKey, TestLogId), Vec<Op>>; 2] = [BTreeMap::new(), BTreeMap::new()];
-        for (i, p) in [(0, &pa), (1, &pb)] { for au in [ida, idb] { for l in &shared { stored[i].insert((au, *l), entries(&p.store, &au, l).await); } } }
-        for me in 0..2 { let other = 1 - me; for au in [ida, idb] { for l in &shared {
+        for (i, p) in [(0, &pa), (1, &pb)] { for au in [ida, idb, idc] { for l in &shared { stored[i].insert((au, *l), entries(&p.store, &au, l).await); } } }
+        for me in 0..2 { let other = 1 - me; for au in [ida, idb, idc] { for l in &shared {
             let mine = stored[me][&(au, *l)].iter().map(|o| o.header.seq_num).max();
             for o in &stored[other][&(au, *l)] { if mine.map(|h| o.header.seq_num > h).unwrap_or(true) { want[me].push(o.hash); } }
         } } }
@@ -78,18 +96,20 @@ async fn main() {
         let r = tokio::time::timeout(Duration::from_secs(180), run_protocol(sa, sb)).await;
         n += 1;
         if want[0].len() + want[1].len() > 0 { nontrivial += 1; }
-        let inp = json!({"round": round, "shared_logs": shared, "stored(seq numbers per (author,log))": stored.iter().map(|m| m.iter().map(|((au, l), v)| json!({"author": if *au == ida { "A" } else { "B" }, "log": l, "seqs": v.iter().map(|o| o.header.seq_num).collect::<Vec<_>>()})).collect::<Vec<_>>()).collect::<Vec<_>>()});
+        let inp = json!({"round": round, "shared_logs": shared, "stored(seq numbers per (author,log))": stored.iter().map(|m| m.iter().map(|((au, l), v)| json!({"author": if *au == ida { "A" } else if *au == idb { "B" } else { "C" }, "log": l, "seqs": v.iter().map(|o| o.header.seq_num).collect::<Vec<_>>()})).collect::<Vec<_>>()).collect::<Vec<_>>()});
         let mut class = None;
         let mut got: [Vec<Hash>; 2] = [vec![], vec![]];
+        let mut got_body: [Vec<(Hash, Option<Vec<u8>>)>; 2] = [vec![], vec![]];
         match r {
             Err(_) => class = Some("sync-session-does-not-complete"),
             Ok(Err(_)) => class = Some("sync-session-fails-between-honest-peers"),
             Ok(Ok(_)) => {
-                for (i, rx) in [(0, &mut ea), (1, &mut eb)] { while let Ok(ev) = rx.try_recv() { if let LogSyncEvent::OperationReceived { operation, .. } = ev { got[i].push(operation.hash); } } }
+                for (i, rx) in [(0, &mut ea), (1, &mut eb)] { while let Ok(ev) = rx.try_recv() { if let LogSyncEvent::OperationReceived { operation, .. } = ev { got[i].push(operation.hash); got_body[i].push((operation.hash, operation.body.as_ref().map(|b| b.to_bytes()))); } } }
                 for i in 0..2 {
                     let mut g = got[i].clone(); g.sort(); let mut w = want[i].clone(); w.sort();
                     if g.windows(2).any(|x| x[0] == x[1]) { class = Some("operation-delivered-twice"); }
                     else if g != w { class = Some(if g.iter().any(|h| !w.contains(h)) { "operation-delivered-that-was-not-missing" } else { "missing-operation-not-delivered" }); }
+                    else if got_body[i].iter().any(|(h, b)| stored[1 - i].values().flatten().find(|o| o.hash == *h).map(|o| o.body.as_ref().map(|x| x.to_bytes()) != *b).unwrap_or(false)) { class = Some("operation-delivered-with-a-body-that-is-not-the-stored-one"); }
                     else {
                         // log order: per (author, log) increasing seq
                         let all: Vec<&Op> = stored[1 - i].values().flatten().collect();
